@@ -1037,6 +1037,13 @@ impl<'de> serde::de::Visitor<'de> for DataVisitor<'_> {
                     } else if handle > self.dataset.data_len() {
                         // expand the gaps, though this wastes memory if ensures that all references
                         // are valid without explicitly storing public identifiers.
+                        //(a number in the input must not bring the process down: fail if that much can't be allocated)
+                        let additional = handle - self.dataset.data_len();
+                        self.dataset.data.try_reserve(additional).map_err(|_| {
+                            serde::de::Error::custom(
+                                "temporary public identifier for annotation data is out of range",
+                            )
+                        })?;
                         self.dataset.data.resize_with(handle, Default::default);
                     }
                 }
